@@ -189,6 +189,17 @@ def z3_templates(rng):
 ORACLE = [None]
 
 
+def close_over(rng, goal):
+    """universally quantify some free first-order variables at the top, keeping names that clash with inner binders
+    (inner binder names are drawn from k/u/v/n, free names from n/m/i/j/x/y/a/b): !n. ... (?n. ...) ..."""
+    ats = [a for a in S.atoms(goal) if a[2] in (NAT, INT, REAL, B, TA)]
+    rng.shuffle(ats)
+    for a in ats[:rng.choice([1, 2, 3])]:
+        nm = a[1] if rng.random() < 0.5 else rng.choice(['k', 'u', 'v', 'n'])
+        goal = quant('all', nm, a[2], S.abstract(goal, a))
+    return goal
+
+
 def random_env(rng, atoms_):
     env = {}
     size = rng.choice([1, 2, 2])
@@ -484,6 +495,8 @@ def run_shard(ctx, spec):
             else:
                 g = Z3Gen(rng)
                 goal, origin = g.formula(rng.choice([1, 2, 2, 3]), ()), 'random'
+                if rng.random() < 0.35:
+                    goal, origin = close_over(rng, goal), 'random-closed'
             run_z3_case(ctx, rng, goal, origin)
             ctx.case(('z3', goal), nontrivial=S.size(goal) >= 7,
                      sample={'solver': 'z3', 'goal': S.tm_str(goal)} if k < 2 and spec['i'] == 0 else None)
